@@ -132,6 +132,7 @@ func TestContract(t *testing.T) {
 		o := j5sgen.DefaultOpts()
 		o.Rules, o.ListRules = false, false // rules do not change the structural contract (C04/C12 cover them)
 		o.MaxPackages, o.MaxFiles = 3, 3
+		o.OddMethodNames = true
 		b, classes := j5sgen.Draw(t, o)
 		nt := classes["multi-file-package"] || classes["ref-cross-package"] || classes["inline-depth>=2"] || classes["path-parameter"]
 		cls := []string{}
